@@ -231,6 +231,39 @@ CHECKS = {
         "design_ref": "DESIGN.md section 5, C16",
         "note": TRUSTED + " Hash agreement is demanded for equal objects only.",
     },
+    "C14": {
+        "technique": "TLA+ spec (Threads: all interleavings of recorded solo access sequences over a common memory; "
+                     "TraceThreads) + TLC; racy and sampled schedules replayed in the real code under a deterministic "
+                     "scheduler; bounded-preemption line-level runs",
+        "text": "Every call of a menu (39 German methods x 4 accounts, German IBANs per registry method, national "
+                "algorithms, validation / generation / lookup / seeded random calls) is run alone with an access "
+                "recorder attached to schwifty.checksum.Algorithm; for all pairs routed to the same algorithm object, "
+                "sampled pairs on different objects and triples, TLC explores EVERY interleaving of the accesses to "
+                "locations some thread writes; each interleaving in which a read can return a non-solo value is "
+                "replayed in the real code (threads parked at every access, one runnable at a time) and the recorded "
+                "run is validated by TraceThreads (memory semantics, outcome = solo); so are random complete "
+                "schedules and line-granularity runs with <= 2 preemptions. An engine self-check shows the model "
+                "finds the A:W,B:W,A:R scratch race and is quiet for thread-confined scratch.",
+        "design_ref": "DESIGN.md section 5, C14",
+        "note": TRUSTED + " Exhaustive at shared-access granularity for what the recorder sees; line granularity is "
+                          "sampled with bounded preemption; the scheduler serialises threads.",
+    },
+    "C15": {
+        "technique": "TLA+ spec (History: sequential composition of solo access sequences over one scratch memory; "
+                     "TraceHistory) + TLC; every model history executed in the real code against first-call-in-a-"
+                     "fresh-process outcomes and registry / object digests",
+        "text": "Menu of 50 calls (validation ok / each error class incl. national failures, generation ok / failing, "
+                "seeded random, lookups hit / miss, German methods that park scratch, copies). TLC enumerates every "
+                "history of <= 2 calls over the menu and <= 3 over a 12-call sub-menu over one scratch memory "
+                "(thread-local scratch is made visible to the recorder): no read sees a value other than solo. All "
+                "those histories (all pairs, all / sampled triples) and long random ones (20-200 calls) are executed "
+                "in the real library: after every call the outcome must equal the outcome of that call as the first "
+                "call of a fresh interpreter and the digest of registries and previously created objects must equal "
+                "the post-import digest (validated by TraceHistory).",
+        "design_ref": "DESIGN.md section 5, C15",
+        "note": TRUSTED + " Registry immutability is observed through a structural digest (sampled entries) and "
+                          "witness objects; histories are sequences over the fixed menu.",
+    },
 }
 
 NOT_YET = {
